@@ -73,10 +73,10 @@ Qed.
 
 Lemma taylor_loop_sum fuel : forall x rop last_x k, 0 <= x <= ONE -> (1 <= k)%nat ->
   0 <= last_x -> term_ok x last_x k ->
-  (inject_Z rop <= qsum x k /\ qsum x k < inject_Z rop + 3 * inject_Z (Z.of_nat k))%Q ->
+  (inject_Z rop <= qsum x k /\ qsum x k <= inject_Z rop + 3 * inject_Z (Z.of_nat k))%Q ->
   let r := taylor_loop fuel x EPS rop ((Z.of_nat k + 1) * ONE) last_x (Z.of_nat k) in
   exists n, snd r = Z.of_nat n /\
-    (inject_Z (fst r) <= qsum x n /\ qsum x n < inject_Z (fst r) + 3 * inject_Z (Z.of_nat n))%Q /\
+    (inject_Z (fst r) <= qsum x n /\ qsum x n <= inject_Z (fst r) + 3 * inject_Z (Z.of_nat n))%Q /\
     (Z.of_nat n < Z.of_nat k + Z.of_nat fuel -> (qterm x (S n) < inject_Z EPS + 3)%Q).
 Proof.
   induction fuel as [|fuel IH]; intros x rop last_x k Hx Hk Hl Ht Hs r.
@@ -94,47 +94,50 @@ Proof.
     + replace ((Z.of_nat k + 1) * ONE + ONE) with ((Z.of_nat (S k) + 1) * ONE) by lia.
       replace (Z.of_nat k + 1) with (Z.of_nat (S k)) by lia.
       assert (Hs' : (inject_Z (rop + next_x) <= qsum x (S k) /\
-                     qsum x (S k) < inject_Z (rop + next_x) + 3 * inject_Z (Z.of_nat (S k)))%Q).
+                     qsum x (S k) <= inject_Z (rop + next_x) + 3 * inject_Z (Z.of_nat (S k)))%Q).
       { cbn [qsum]. rewrite inject_Z_plus. rewrite Nat2Z.inj_succ. unfold Z.succ. rewrite inject_Z_plus.
         change (inject_Z 1) with 1%Q. destruct Hs as [Hs1 Hs2]. split; lra. }
       destruct (IH x (rop + next_x) next_x (S k) Hx ltac:(lia) Hn0 Ht' Hs') as (n & E1 & E2 & E3).
       exists n. split; [exact E1|]. split; [exact E2|]. intros Hlt. apply E3. lia.
 Qed.
 
+Lemma mp_exp_taylor_unfold x : mp_exp_taylor 1000 x EPS =
+  if Z.abs x <? Z.abs EPS then (ONE, 0)
+  else taylor_loop (Z.to_nat 999) x EPS (ONE + x) ((Z.of_nat 1 + 1) * ONE) x (Z.of_nat 1).
+Proof.
+  unfold mp_exp_taylor. replace (Z.to_nat 1000) with (S (Z.to_nat 999)) by lia.
+  generalize (Z.to_nat 999). intros f. cbn [taylor_loop].
+  assert (Hfirst : fp_div (scale (x * ONE)) ONE = x).
+  { unfold ONE. pose proof PREC_pos. rewrite scale_mul_PREC. rewrite fp_div_quot by lia. apply Z.quot_mul. lia. }
+  rewrite Hfirst. reflexivity.
+Qed.
+
 (* the returned sum against the exact rational partial sum, and the first omitted term *)
 Lemma exp_taylor_partial_sum_proof x : 0 <= x <= ONE ->
-  let r := mp_exp_taylor 1000 x EPS in
-  exists n, snd r = Z.of_nat n /\ (n <= 24)%nat /\
-    (inject_Z (fst r) <= qsum x n /\ qsum x n < inject_Z (fst r) + 3 * inject_Z (Z.of_nat n))%Q /\
+  exists n, snd (mp_exp_taylor 1000 x EPS) = Z.of_nat n /\ (n <= 24)%nat /\
+    (inject_Z (fst (mp_exp_taylor 1000 x EPS)) <= qsum x n /\
+     qsum x n <= inject_Z (fst (mp_exp_taylor 1000 x EPS)) + 3 * inject_Z (Z.of_nat n))%Q /\
     (qterm x (S n) < inject_Z EPS + 3)%Q.
 Proof.
-  intros Hx r. pose proof (mp_exp_taylor_spec x 1000 Hx ltac:(lia)) as (_ & Hn & _). fold r in Hn.
+  intros Hx. pose proof (mp_exp_taylor_spec x 1000 Hx ltac:(lia)) as (_ & Hn & _).
   pose proof PREC_pos as HP.
   assert (Hq0 : (qterm x 0 == inject_Z ONE)%Q).
   { unfold qterm, W. cbn [zfact Z.of_nat]. rewrite !Z.pow_0_r. rewrite !Z.mul_1_l.
     change (inject_Z 1) with 1%Q. unfold ONE. field. }
-  unfold mp_exp_taylor in r.
-  assert (Hfu : Z.to_nat 1000 = S (Z.to_nat 999)) by lia. rewrite Hfu in r.
-  assert (Hf999 : Z.of_nat (Z.to_nat 999) = 999) by lia.
-  set (f999 := Z.to_nat 999) in *. clearbody f999. cbn [taylor_loop] in r.
-  assert (Hfirst : fp_div (scale (x * ONE)) ONE = x).
-  { unfold ONE. rewrite scale_mul_PREC. rewrite fp_div_quot by lia. apply Z.quot_mul. lia. }
-  rewrite Hfirst in r.
+  rewrite mp_exp_taylor_unfold in *.
   destruct (Z.abs x <? Z.abs EPS) eqn:E.
-  - exists 0%nat. subst r. cbn [fst snd]. split; [reflexivity|]. split; [lia|].
+  - exists 0%nat. cbn [fst snd]. split; [reflexivity|]. split; [lia|].
     split; [cbn [qsum]; rewrite Hq0; change (inject_Z (Z.of_nat 0)) with 0%Q; lra|].
     assert (Hlt : x < EPS) by (change (Z.abs EPS) with EPS in E; lia).
     assert (Hq1 : (qterm x 1 == inject_Z x)%Q).
     { unfold qterm, W. cbn [zfact]. change (Z.of_nat 1) with 1. rewrite !Z.pow_1_r, !Z.mul_1_l.
-      rewrite inject_Z_mult. field. intros H. change 0%Q with (inject_Z 0) in H. apply inject_Z_injective in H. lia. }
+      rewrite inject_Z_mult. field. intros H. unfold Qeq, inject_Z in H. cbn [Qnum Qden] in H. lia. }
     rewrite Hq1. rewrite Zlt_Qlt in Hlt. lra.
   - assert (Ht1 : term_ok x x 1).
     { unfold term_ok, W. cbn [zfact]. change (Z.of_nat 1) with 1. rewrite !Z.pow_1_r. lia. }
-    assert (Hs1 : (inject_Z (ONE + x) <= qsum x 1 /\ qsum x 1 < inject_Z (ONE + x) + 3 * inject_Z (Z.of_nat 1))%Q).
+    assert (Hs1 : (inject_Z (ONE + x) <= qsum x 1 /\ qsum x 1 <= inject_Z (ONE + x) + 3 * inject_Z (Z.of_nat 1))%Q).
     { cbn [qsum]. destruct (term_ok_Q _ _ _ Ht1) as [A B]. rewrite Hq0, inject_Z_plus.
       change (inject_Z (Z.of_nat 1)) with 1%Q. split; lra. }
-    change (ONE + ONE) with ((Z.of_nat 1 + 1) * ONE) in r. change (0 + 1) with (Z.of_nat 1) in r.
-    destruct (taylor_loop_sum f999 x (ONE + x) x 1%nat Hx ltac:(lia) ltac:(lia) Ht1 Hs1) as (n & E1 & E2 & E3).
-    fold r in E1, E2. exists n. split; [exact E1|]. split; [lia|]. split; [exact E2|]. apply E3.
-    lia.
+    destruct (taylor_loop_sum (Z.to_nat 999) x (ONE + x) x 1%nat Hx ltac:(lia) ltac:(lia) Ht1 Hs1) as (n & E1 & E2 & E3).
+    exists n. split; [exact E1|]. split; [lia|]. split; [exact E2|]. apply E3. lia.
 Qed.
